@@ -8,6 +8,21 @@ ALL = [f"C{i:02d}" for i in range(1, 21)]
 PENDING_REASON = "check not built yet in this commit (work in progress; see DESIGN.md section 5 for the planned model and theorems)"
 NOT_APPLICABLE = {}  # id -> reason, for properties the technique genuinely cannot decide
 
+# keep the Lean root module and the driver library in step with the files present
+lean = os.path.join(VERIF, "lean")
+mods = []
+for root, _, files in os.walk(os.path.join(lean, "QVerif")):
+    for f in files:
+        if f.endswith(".lean"):
+            mods.append(os.path.relpath(os.path.join(root, f), lean)[:-5].replace(os.sep, "."))
+mods.sort()
+with open(os.path.join(lean, "QVerif.lean"), "w") as fh:
+    fh.write("".join(f"import {m}\n" for m in mods if ".Driver." not in m))
+drivers = [m for m in mods if ".Driver." in m]
+with open(os.path.join(lean, "lakefile.toml"), "w") as fh:
+    fh.write('name = "QVerif"\nversion = "0.1.0"\ndefaultTargets = ["QVerif", "QVerifDrivers"]\n\n[[lean_lib]]\nname = "QVerif"\n\n'
+             '[[lean_lib]]\nname = "QVerifDrivers"\nroots = [' + ", ".join(f'"{d}"' for d in drivers) + "]\n")
+
 checks, na = [], []
 for pid in ALL:
     path = os.path.join(VERIF, "harness", f"corr_{pid}.py")
